@@ -1,12 +1,14 @@
 // Command c17 drives a real mux.Router through the line protocol of DESIGN appendix A (property C17).
 //
 //	reset | route <pat> <h|nil> | routef <pat> <h|nil> | unroute <pat> | default <h|nil> | defaultf <h|nil>
-//	mw <name> | serve <path|none> | match <path>
+//	mw <name> | serve <path|none> | served <path|none> | match <path>
 //
 // Strings are lower-case hex of their bytes ("-" = empty). `serve` builds a pool.Message whose Uri-Path options
 // re-assemble (Options.Path) to exactly the given path — which therefore must be empty ("none": no option at all) or
-// start with "/" — and calls Router.ServeCOAP with recording handlers and middlewares. `match` calls Router.Match
-// directly (any string).
+// start with "/" — and hands it to mux.ToHandler(router), the adapter the udp/tcp/dtls servers use (it builds the
+// per-request mux.Message and RouteParams), with recording handlers and middlewares; requests of one case are served one
+// after another through the same adapter. `served` calls Router.ServeCOAP directly with a fresh mux.Message, `match`
+// calls Router.Match directly (any string).
 package main
 
 import (
@@ -24,6 +26,8 @@ import (
 	"github.com/plgd-dev/go-coap/v3/message/codes"
 	"github.com/plgd-dev/go-coap/v3/message/pool"
 	"github.com/plgd-dev/go-coap/v3/mux"
+	"github.com/plgd-dev/go-coap/v3/net/responsewriter"
+	udpClient "github.com/plgd-dev/go-coap/v3/udp/client"
 	"verifharness/internal/lp"
 )
 
@@ -140,6 +144,10 @@ func normPattern(p string) string {
 func main() {
 	st := newState()
 	pl := pool.New(0, 0)
+	// the server-side adapter around the router of the current case (st is re-read on every request)
+	adapter := mux.ToHandler[*udpClient.Conn](mux.HandlerFunc(func(w mux.ResponseWriter, r *mux.Message) {
+		st.r.ServeCOAP(&respWriter{rec: st.rec, req: r}, r)
+	}))
 	lp.Loop(func(f []string, w *bufio.Writer) {
 		defer func() {
 			if r := recover(); r != nil {
@@ -203,7 +211,9 @@ func main() {
 				})
 			})
 			fmt.Fprintln(w, "ok")
-		case f[0] == "serve" && len(f) == 2:
+		case (f[0] == "serve" || f[0] == "served") && len(f) == 2:
+			// serve: through mux.ToHandler, the adapter every udp/tcp/dtls server uses (it builds the per-request
+			// mux.Message / RouteParams); served: Router.ServeCOAP called directly with a fresh mux.Message.
 			msg := pl.AcquireMessage(context.Background())
 			msg.SetCode(codes.GET)
 			want := ""
@@ -222,8 +232,13 @@ func main() {
 				return
 			}
 			st.rec.chain, st.rec.hits = nil, nil
-			req := &mux.Message{Message: msg, RouteParams: new(mux.RouteParams)}
-			st.r.ServeCOAP(&respWriter{rec: st.rec, req: req}, req)
+			if f[0] == "served" {
+				req := &mux.Message{Message: msg, RouteParams: new(mux.RouteParams)}
+				st.r.ServeCOAP(&respWriter{rec: st.rec, req: req}, req)
+			} else {
+				resp := pl.AcquireMessage(context.Background())
+				adapter(responsewriter.New[*udpClient.Conn](resp, nil), msg)
+			}
 			switch len(st.rec.hits) {
 			case 0:
 				if len(st.rec.chain) != 0 {
